@@ -4,6 +4,7 @@
 mod lm;
 mod p_duration;
 mod p_epoch;
+mod p_float;
 mod p_misc;
 mod p_text;
 mod rec;
@@ -73,7 +74,13 @@ fn main() {
             p_epoch::c16_epochs(&mut m, &g, &mut rng, thorough);
         }
         "C09" => p_text::c09(&mut rec, &lm, &mut rng, thorough),
-        "C10" => p_text::c10(&mut rec, &lm, &mut rng, thorough),
+        "C10" => {
+            p_text::c10(&mut rec, &lm, &mut rng, thorough);
+            let mut m = p_epoch::EM::new(&mut rec);
+            p_float::c10_numeric(&mut m, &mut rng, thorough);
+        }
+        "C17" => p_float::c17(&mut rec, &lm, &mut rng, thorough),
+        "C18" => p_float::c18(&mut rec, &lm, &mut rng, thorough),
         "C11" => p_text::c11(&mut rec, &lm, &mut rng, thorough),
         "C13" => p_text::c13(&mut rec, &lm, &mut rng, thorough),
         "C19" => p_text::c19(&mut rec, &lm, &mut rng, thorough),
@@ -81,6 +88,7 @@ fn main() {
             let g = p_epoch::EpGen::new(&lm, false);
             let mut m = p_epoch::EM::new(&mut rec);
             p_epoch::c20_tow(&mut m, &g, &mut rng, thorough);
+            p_float::c20_doy(&mut m, &mut rng, thorough);
         }
         "C09F" => {
             let mut m = p_epoch::EM::new(&mut rec);
